@@ -128,8 +128,9 @@ def setup(it, objs, initial=False):
 
 
 # ------------------------------------------------------------------------------------ registry
-def make_reg():
+def make_reg(delegated=False):
     reg = make_registry()
+    reg.delegated = delegated
     install_trace_funcs(reg)
     register_classes(reg, [W + "errors.py", W + "_wordlist.py", W + "_input.py"])
     reg.regex_abstract = True
@@ -416,6 +417,19 @@ def make_reg():
                          {"kind": "post", "src": "by closed(): nameplate released or never claimed, mailbox closed or never "
                                                  "opened, server connection stopped"})
             g.fields["w_closed"] = VBool(True)
+        if reg.delegated and meth != "closed":
+            # delegated API (docs/api.rst "Delegated mode"): the callback runs synchronously inside the Boss's output and the
+            # application may call back into the wormhole from it: send_message() or close() (E4; the real
+            # _DelegatedWormhole.send_message/close go straight to Boss.send / Boss.close)
+            closed_by_app = it.truth(g.fields["api_closed"])
+            if not z3.is_true(z3.simplify(closed_by_app)):
+                c = it.ctx.choose([z3.BoolVal(True), z3.Not(closed_by_app), z3.Not(closed_by_app)], f"delegate-reenters[{meth}]")
+                B = it.reg.cluster_engine._objs["B"]
+                if c == 1:
+                    it.call(it.getattr(B, "send"), [it.fresh("bytes", "reentrant_plaintext")], {})
+                elif c == 2:
+                    it.call(it.getattr(B, "close"), [], {})
+                    g.fields["api_closed"] = VBool(True)
         return NONE
 
     reg.boundary["WormholeApp.*"] = w_call
@@ -466,6 +480,24 @@ def make_reg():
                 g.fields[flag] = VBool(True)
             if name == "got_key" and state in ("S3_closing", "S4_closed"):
                 g.fields["key_to_app"] = VInt(2)      # the key arrived after closing started: the row ignores it
+        if m.cls == "Order" and name in ("got_pake", "got_non_pake") and len(args) >= 2:
+            # C02/C03: what the Mailbox hands on to Order (and so to decryption and the application)
+            side, phase = it.force(args[0]), it.force(args[1])
+            ours = it.reg.cluster_engine._objs["B"].fields["_side"]
+            pr = it.ctx.prove
+            pr(side.z != ours.z, "post:C02:own-echo-never-forwarded",
+               {"kind": "post", "src": "a message that carries our own side never reaches Order (it is an echo, not a peer message)"})
+            pre = getattr(it.reg, "_pre_processed", None)
+            if pre is not None:
+                fresh = z3.And([z3.Not(z3.Select(pre, phase.z))] + [phase.z != q.z for q in it.reg._fwd])
+                pr(fresh, "post:C02:forwarded-phase-is-new",
+                   {"kind": "post", "src": "a phase is handed to Order only if it was not yet in Mailbox._processed (each phase "
+                                           "string is accepted once, however often the server repeats it)"})
+                it.reg._fwd.append(phase)
+            ins = it.ctx.inputs
+            if getattr(it.reg, "_entry_name", None) == "msg.message" and "side" in ins and "phase" in ins:
+                pr(z3.And(side.z == ins["side"].z, phase.z == ins["phase"].z), "post:C02:labels-forwarded-unchanged",
+                   {"kind": "post", "src": "Order gets the side and phase the server message carried (they select the key)"})
         if m.cls == "Terminator" and name == "close" and args:
             g.fields["close_mood"] = mood_enum(it, args[0])
         if m.cls == "Mailbox" and name == "add_message" and args:
@@ -624,11 +656,33 @@ def clear_connection(it, objs):
     g.z = z3.K(StringS, z3.BoolVal(False))
 
 
+def _session_survives(it, objs, rk0, open0, where):
+    """C09: a connection loss (or a reconnection attempt that fails) is not an error of the session: it fixes no verdict
+    and does not start the close; the ClientService keeps trying"""
+    it.ctx.prove(z3.And(G(objs, "result_kind").z == rk0, z3.Implies(open0, _boss_open(it, objs)),
+                        z3.Not(T_(it, objs, "error_cb_pending"))),
+                 f"post:C09:{where}:connection-loss-is-not-a-verdict",
+                 {"kind": "post", "src": "losing the server connection (or a reconnection attempt that fails) records no verdict, "
+                                         "does not start closing and schedules no error report"})
+
+
 def e_ws_close(eng, it, objs):
     it.ctx.assume(T_(it, objs, "connected"))
     setg(objs, "connected", False)
     clear_connection(it, objs)
+    rk0, open0 = G(objs, "result_kind").z, _boss_open(it, objs)
     call(it, objs["RC"], "ws_close", VBool(True), VInt(1000), VStr("bye"))
+    _session_survives(it, objs, rk0, open0, "ws_close")
+
+
+def e_ws_close_failed_reconnect(eng, it, objs):
+    """a reconnection attempt whose TCP connection comes up but whose WebSocket negotiation fails: autobahn delivers
+    onClose() without onOpen() (RC._ws is still None); the ClientService will try again"""
+    it.ctx.assume(z3.And(T_(it, objs, "ever_connected"), z3.Not(T_(it, objs, "connected")),
+                         z3.Not(T_(it, objs, "service_stopped")), z3.Not(T_(it, objs, "init_fail_done"))))
+    rk0, open0 = G(objs, "result_kind").z, _boss_open(it, objs)
+    call(it, objs["RC"], "ws_close", VBool(False), VInt(1006), VStr("abnormal"))
+    _session_survives(it, objs, rk0, open0, "failed-reconnect")
 
 
 def e_ws_close_never_opened(eng, it, objs):
@@ -872,6 +926,7 @@ ENTRIES = [
     Entry("ws.open", e_ws_open),
     Entry("ws.close", e_ws_close),
     Entry("ws.close_never_opened", e_ws_close_never_opened),
+    Entry("ws.close_failed_reconnect", e_ws_close_failed_reconnect),
     Entry("service.stopped", e_stopped_cb),
     Entry("service.initial_connection_failed", e_initial_connection_failed),
     Entry("service.pending_error_callback", e_pending_error_cb),
@@ -900,12 +955,66 @@ ENTRIES = [Entry(e.name, _not_while_draining(e.run), e.allowed_exc) for e in ENT
     [Entry("order.deliver_queued", e_order_deliver_queued)]
 
 
+def _two_state(fn, name):
+    """two-state obligations of C02/C03 (no invariant needed: they compare the state at the start and at the end of one
+    entry point): the dedup set never loses a phase, every phase handed to Order is recorded in it, and a message that
+    the server has not echoed stays in Mailbox._pending_outbound (so that it is re-submitted, C09)"""
+    def run(eng, it, objs):
+        M = objs["M"]
+        proc, po = M.fields["_processed"], M.fields["_pending_outbound"]
+        pre_proc, pre_present = proc.z, po.present
+        it.reg._pre_processed, it.reg._fwd, it.reg._entry_name = pre_proc, [], name
+        ncuts = len(getattr(eng, "_cuts_seen", ()))
+        try:
+            fn(eng, it, objs)
+        finally:
+            it.reg._pre_processed = None
+        if len(getattr(eng, "_cuts_seen", ())) != ncuts:
+            # the path crossed a loop cut inside cluster code: fields the loop may modify were havocked there, so the
+            # state at the end is not comparable with the state at the start (Send.drain's loop is under its own
+            # contract in C03: it only calls Mailbox.add_message)
+            return
+        pr = it.ctx.prove
+        k = z3.Const(it.ctx.namer("k!any_phase"), StringS)
+        pr(z3.Implies(z3.Select(pre_proc, k), z3.Select(proc.z, k)), "post:C02:processed-never-shrinks",
+           {"kind": "post", "src": "no phase ever leaves Mailbox._processed (a replayed or re-delivered message stays rejected, "
+                                   "also across reconnects)"})
+        for q in it.reg._fwd:
+            pr(z3.Select(proc.z, q.z), "post:C02:forwarded-phase-recorded",
+               {"kind": "post", "src": "a phase handed to Order is in Mailbox._processed afterwards"})
+        ins = it.ctx.inputs
+        echo = z3.BoolVal(False)
+        if name == "msg.message" and "side" in ins and "phase" in ins:
+            echo = z3.And(ins["side"].z == objs["B"].fields["_side"].z, ins["phase"].z == k)
+        pr(z3.Implies(z3.Select(pre_present, k), z3.Or(z3.Select(po.present, k), echo)), "post:C03:unechoed-message-stays-pending",
+           {"kind": "post", "src": "a message leaves Mailbox._pending_outbound only when the server echoes that phase with our own "
+                                   "side; until then it is re-submitted on every new connection"})
+    return run
+
+
+ENTRIES = [Entry(e.name, _two_state(e.run, e.name), e.allowed_exc) for e in ENTRIES]
+
+
 TX_GHOST = ["bound", "claim_sent", "claim_owed", "release_sent", "release_owed", "open_sent", "close_sent", "close_owed",
             "allocate_sent", "allocate_owed", "list_owed", "added", "tx_close_mood", "claimed_maybe", "opened_maybe"]
 
 
-def engine():
-    e = MEngine("mailbox", make_reg, make_spec, ENTRIES, os.path.join(ROOT, "inv", "mailbox.json"))
+def make_reg_delegated():
+    return make_reg(delegated=True)
+
+
+def engine_delegated():
+    """the same cluster with the application in delegated mode: every W.* callback may re-enter send() / close()"""
+    return engine(delegated=True)
+
+
+def engine(delegated=False):
+    if delegated:
+        e = MEngine("mailbox_delegated", make_reg_delegated, make_spec, ENTRIES, os.path.join(ROOT, "inv", "mailbox_delegated.json"))
+        # what a re-entrant application callback may run (for the static may-modify walk at loop cuts)
+        e.boundary_reenters = {"WormholeApp.*": [("B", "send"), ("B", "close")]}
+    else:
+        e = MEngine("mailbox", make_reg, make_spec, ENTRIES, os.path.join(ROOT, "inv", "mailbox.json"))
     # ghost state that boundary models / hooks may change (used when a loop in cluster code is cut: everything
     # its body may change is havocked); an undeclared boundary call counts as touching all ghost state
     e.ghost_effects = {
